@@ -465,7 +465,10 @@ def run_shard(spec):
 
 
 def replay(data):
-    return dict(evaluations=0, violations=[])
+    from vf.props import _lock as L
+    if (data.get('replay') or {}).get('snapshot'):
+        return L.replay_rows(ID, data)          # clusters of the lock-step rows carry their complete pre-state
+    return dict(evaluations=0, violations=[], not_replayable='this cluster is described in full by the file; it has no executable replay')
 
 
 def finish(agg, tier, seed):
